@@ -19,7 +19,8 @@ RULE = ('every exception class in `builtins` that can be instantiated from a tab
         'table is enumerated completely on every run')
 TRUSTED_BASE = ['Lean 4.33 kernel', 'axioms ⊆ {propext, Classical.choice, Quot.sound}', 'JSON glue (Gin/Drv)',
                 'harness props/c17.py', 'class creation, C-level slots, with_traceback are CPython\'s']
-ASSUMPTIONS = ['the model only fixes the attribute lookup order (data descriptors of the type, instance dict, __getattr__)']
+ASSUMPTIONS = ['the model only fixes the attribute lookup order (data descriptors of the type, instance dict, __getattr__)',
+               'a class whose constructor does not accept its own `args` may arrive as the original object, message unextended']
 EXPLANATION = ('Lean theorems about the attribute-lookup protocol of the proxy (forwarding proxy reads agree with the '
                'original for every attribute; the non-forwarding construction provably loses slot-backed attributes) + '
                'exhaustive run over the builtin exception table and generated user classes on the real code.')
@@ -69,7 +70,36 @@ class WithProperty(RuntimeError):
     return self._n * 2
 
 
-USER = [(NeedsArgs, (1, 'two')), (NeedsNewArgs, (404, 'nf')), (Slotted, ([1, 2],)), (CustomStr, ('m', {'k': 1})),
+class DeviceError(OSError):
+  """OSError subclass whose constructor signature differs from what ends up in `args`."""
+
+  def __new__(cls, device, code, detail):
+    self = super().__new__(cls, code, detail)
+    self.device = device
+    return self
+
+  def __init__(self, device, code, detail):
+    super().__init__(code, detail)
+
+
+class BatchError(ExceptionGroup):
+  """Exception group with its own constructor signature."""
+
+  def __new__(cls, errors, stage, exit_code):
+    self = super().__new__(cls, '%d errors in %s' % (len(errors), stage), errors)
+    self.stage = stage
+    self.exit_code = exit_code
+    return self
+
+  def __init__(self, errors, stage, exit_code):
+    super().__init__('%d errors in %s' % (len(errors), stage), errors)
+
+  def derive(self, excs):
+    return BatchError(excs, self.stage, self.exit_code)
+
+
+USER = [(DeviceError, ('sda', 5, 'I/O error')), (BatchError, ([ValueError('a'), KeyError('b')], 'load', 3)),
+        (NeedsArgs, (1, 'two')), (NeedsNewArgs, (404, 'nf')), (Slotted, ([1, 2],)), (CustomStr, ('m', {'k': 1})),
         (WithProperty, (21,))]
 
 
@@ -192,7 +222,12 @@ def run_impl(case):
     orig_str = str(exc)
   except Exception:  # pylint: disable=broad-except
     pass
-  res = {'orig': orig, 'orig_args': encode(list(exc.args), gin) if not any(isinstance(a, (list,)) and a and isinstance(a[0], BaseException) for a in exc.args) else {'n': len(exc.args)},
+  try:
+    type(exc)(*exc.args)
+    ctor_ok = True
+  except Exception:  # pylint: disable=broad-except
+    ctor_ok = False
+  res = {'ctor_accepts_args': ctor_ok, 'orig': orig, 'orig_args': encode(list(exc.args), gin) if not any(isinstance(a, (list,)) and a and isinstance(a[0], BaseException) for a in exc.args) else {'n': len(exc.args)},
          'is_exception': isinstance(exc, Exception)}
   with gin.config_scope('sc'):
     try:
@@ -260,6 +295,10 @@ def oracle(case, impl):
     return None
   if impl.get('replaced_by'):
     return f'{case["cls"]} was replaced by {impl["replaced_by"]}'
+  if impl.get('same_object') and not impl.get('ctor_accepts_args'):
+    # a class that cannot even be re-created from its own `args` (constructor signature differs): the
+    # original exception itself arrives, nothing changed and nothing added
+    return None
   if not impl.get('caught_by_original_clause') or not impl.get('isinstance') or not impl.get('subclass_of_original'):
     return f'{case["cls"]}: not catchable as the original class (got {impl.get("type_name")})'
   if not impl.get('type_name_matches'):
